@@ -36,8 +36,20 @@ class ScriptedStream(StreamInterface):
     def next_bool(self):
         return self._next() < 0.5
 
+    def random(self):
+        return self._next()
+
     def next_int(self, lo, hi):
-        return lo + math.floor((hi - lo + 1) * self._next())
+        # the library's own integer draw, fed with the scripted uniform (the wrapped generator is replaced)
+        if getattr(self, "_mt", None) is None:
+            self._mt = MersenneTwister(1)
+            if hasattr(self._mt, "_random"):
+                self._mt._random = self
+            else:
+                self._mt = False
+        if self._mt is False:
+            return lo + math.floor((hi - lo + 1) * self._next())
+        return self._mt.next_int(lo, hi)
 
     def seed(self):
         return 0
